@@ -493,6 +493,103 @@ func init() {
 			{Name: "tight", N: func(c *Ctx) int { return tierN(c, 18*4, 18*40) }, Run: c10Tight},
 			{Name: "paren-override", N: func(c *Ctx) int { return tierN(c, 20000, 2000000) }, Run: c10ParenOverride},
 			{Name: "literals", N: func(c *Ctx) int { return tierN(c, 20000, 3000000) }, Run: c10Literals},
+			{Name: "postfix-operands", N: c10PostN, Run: c10Post, Exhaustive: true},
 		},
 	})
+}
+
+// ---- operands that carry their own selectors
+//
+// In `L op R.sel`, `L op R[0:5]`, `L op R | ...` the selectors after R bind tighter than every binary
+// operator: the operand is (R.sel).  A parser (or a peephole in it) that takes R for the whole
+// operand applies the selector to the result of the operator.  Every left operand from a list that
+// contains a call of every builtin, every binary operator, right operands that begin with a raw
+// string / literal / identifier / call / @, and six selector tails; the bare text must give the same
+// outcome as the text with the implied parentheses written out, and both must agree with the model.
+var c10PostOps = []string{"==", "!=", "<", "<=", ">", ">=", "+", "-", "*", "/", "//", "%", "&&", "||"}
+
+var c10PostRights = []string{"'array'", "'boolean'", "'null'", "'number'", "'object'", "'string'", "'true'", "'text'", "''", "`\"string\"`", "`[1,2,3]`", "`{\"b\":\"number\"}`", "s", "o", "to_string(a)", "@", "$", "not_null(s)", "[s, a]", "{b: s}"}
+
+var c10PostTails = []string{"[0:5]", "[0]", ".b", ".type(@)", "[::-1]", "[*]", ".length(@)", "[-1:]", ".[@]", ".to_string(@)"}
+
+var c10PostLefts []string
+
+func c10PostSetup() {
+	if c10PostLefts != nil {
+		return
+	}
+	c10PostLefts = []string{"a", "s", "o", "@", "a[0]", "o.b", "'array'", "`1`", "`true`", "!s", "-n", "[a]", "(a)", "a | @"}
+	for _, fn := range ref.FunctionNames() {
+		mn, _, ex, _ := ref.Arity(fn)
+		if mn == 0 {
+			mn = 1
+		}
+		args := make([]string, mn)
+		for i := range args {
+			args[i] = c03Plausible(fn, i)
+			for _, e := range ex {
+				if e == i {
+					args[i] = "&@"
+				}
+			}
+		}
+		c10PostLefts = append(c10PostLefts, fn+"("+strings.Join(args, ", ")+")")
+	}
+	// type() of every kind of value
+	for _, x := range []string{"a", "s", "o", "n", "missing", "`true`", "@"} {
+		c10PostLefts = append(c10PostLefts, "type("+x+")")
+	}
+}
+
+func c10PostN(c *Ctx) int {
+	c10PostSetup()
+	return len(c10PostLefts) * len(c10PostOps) * len(c10PostRights)
+}
+
+func c10Post(c *Ctx, idx int) {
+	c10PostSetup()
+	l := c10PostLefts[idx%len(c10PostLefts)]
+	idx /= len(c10PostLefts)
+	op := c10PostOps[idx%len(c10PostOps)]
+	idx /= len(c10PostOps)
+	rt := c10PostRights[idx]
+	doc, err := ref.FromJSON(`{"a":[1,2],"s":"string","o":{"b":"number"},"n":3}`)
+	if err != nil {
+		panic(err)
+	}
+	goDoc := ref.ToGo(doc, ref.JSONNumber)
+	for ti, tail := range c10PostTails {
+		if (ti+idx+len(l))%2 == 1 && c.Tier != "thorough" {
+			continue
+		}
+		bare := l + " " + op + " " + rt + tail
+		paren := l + " " + op + " (" + rt + tail + ")"
+		if strings.Contains(bare, "pad_") {
+			continue
+		}
+		feats := map[string]string{"stream": "postfix-operands", "operator": op, "tail": tail}
+		lb := c.LibSearch(bare, goDoc)
+		lp := c.LibSearch(paren, goDoc)
+		m := ref.Search(bare, doc)
+		if lb.Panic != nil || lp.Panic != nil {
+			continue
+		}
+		if !MultiFaultOK(m, lb, lp) && !SameOutcome(lb, lp, Enumerates(bare)) {
+			c.Report(Violation{Rule: "C10/implied-parentheses", Expr: bare, Data: ref.ToJSONText(doc), Got: ShowOut(lb), Want: ShowOut(lp) + "  (= " + paren + ")", Features: feats})
+		}
+		if judged, ok, why := Agree(m, lb); judged && !ok {
+			c.Report(Violation{Rule: "C10/model", Expr: bare, Data: ref.ToJSONText(doc), Got: ShowOut(lb), Want: m.String(), Detail: why, Features: feats})
+		}
+		// in a filter and in a multi-select the operand ends in the same place
+		for _, w := range []string{"[a, s][?%s]", "[%s]"} {
+			wb, wp := fmt.Sprintf(w, bare), fmt.Sprintf(w, paren)
+			b2, p2 := c.LibSearch(wb, goDoc), c.LibSearch(wp, goDoc)
+			if b2.Panic == nil && p2.Panic == nil && !MultiFaultOK(ref.Search(wb, doc), b2, p2) && !SameOutcome(b2, p2, Enumerates(wb)) {
+				c.Report(Violation{Rule: "C10/implied-parentheses", Expr: wb, Data: ref.ToJSONText(doc), Got: ShowOut(b2), Want: ShowOut(p2) + "  (= " + wp + ")", Features: feats})
+			}
+		}
+		if !m.Unspec {
+			c.Nontrivial(bare)
+		}
+	}
 }
